@@ -94,6 +94,11 @@ def _worker(args):
                         bad = [f for f in out["failed"] if f in valid and f not in notvalid]
                         if bad:
                             ok, why = False, f"checks proved valid fail concretely: {bad}"
+                # witness-only checks (code that no proxy can enter): a concrete failure on a solver-chosen model
+                for f in out.get("failed", []):
+                    if f.startswith("WITNESS") and f not in res["confirmed"]:
+                        res["confirmed"][f] = {"values": p["witness"], "path": pi, "outcomes": out["outcomes"]}
+                res["witness_only_checks"] = res.get("witness_only_checks", 0) + sum(1 for c in out.get("checked", []) if c.startswith("WITNESS"))
                 if ok:
                     res["witness_ok"] += 1
                 else:
@@ -223,6 +228,7 @@ def main(argv=None):
             if not any(o.startswith(want) for o in outcomes_seen):
                 harness_errors.append(f"{r['scenario']}: expected outcome '{want}' not reached on any path (seen: {sorted(outcomes_seen)[:8]})")
         tot["witness_ok"] += r.get("witness_ok", 0)
+        tot["witness_only"] = tot.get("witness_only", 0) + r.get("witness_only_checks", 0)
         for wb in r.get("witness_bad", []):
             harness_errors.append(f"{r['scenario']}: ENCODING-MISMATCH on witness path {wb['path']}: {wb['why']} values={wb['values']}\n{wb.get('tb','')}")
         for key, info in r.get("confirmed", {}).items():
@@ -306,6 +312,7 @@ def main(argv=None):
             "outside_claim": meta.get("outside", []),
             "known_findings_hit": [k for k, _ in known_hits],
             "harness_errors": len(harness_errors),
+            "witness_only_checks_not_solver_decided": tot.get("witness_only", 0),
             "checker_cmd": f"./check {prop} --tier {tier}",
             "trusted_base": meta.get("trusted_base", ["z3", "vf/symx.py proxies", "vf/shadow.py name shadows", "Decimal/float modelled as reals (DESIGN 6.1)"]),
             "explanation": meta.get("explanation", ""),
